@@ -272,7 +272,7 @@ fn step(st: &mut Option<Live>, line: &str) -> String {
         ["dp.tx", now, hp] => match now_of(now) {
             None => Err(()),
             Some(now) => Ok(guarded(|| {
-                let mut buf = [0u8; 256];
+                let mut buf = [0xA5u8; 256]; // a dirty transmit buffer (real PHYs reuse theirs)
                 let r = l.dp.transmit_telegram(
                     now,
                     &l.fdl,
